@@ -171,3 +171,18 @@ Proof.
     + rewrite A, S1. cbn [flat_map]. rewrite <- app_assoc. reflexivity.
     + intros L. apply B. apply S2. exact L.
 Qed.
+
+(** non-vacuity: the hypotheses of [index_agrees] hold together on [>]=C(/Cl)=1-[$a]C[NH3+]#[<]C1=[!2][$] *)
+From CGV Require Import Frag.StripFacts.
+Lemma index_example :
+  wf nv_toks nv_dc = true /\ excluded nv_toks nv_dc = false /\ wf_smiles nv_toks = true /\
+  (exists clean d e a, strip_bonding_descriptors fo0 (render (decorate nv_toks nv_dc)) = Ok (clean, d, e, a)) /\
+  (exists g d' a', parser_view fo0 nv_toks nv_dc = Ok (g, d', a') /\ q_n g = 5 /\
+     d' = [(0, [S ">2"; S "$a1"]); (3, [S "<3"]); (4, [S "!22"; S "$1"])]) /\
+  (exists gr, graph_of false nv_toks = Ok gr /\ length (g_nodes gr) = 5 /\ length (g_edges gr) = 5).
+Proof.
+  split; [vm_compute; reflexivity|]. split; [vm_compute; reflexivity|]. split; [vm_compute; reflexivity|].
+  split; [do 4 eexists; vm_compute; reflexivity|].
+  split; [do 3 eexists; split; [vm_compute; reflexivity|split; reflexivity]|].
+  eexists; split; [vm_compute; reflexivity|split; reflexivity].
+Qed.
